@@ -288,6 +288,23 @@ def MIW.setLimit (w : MIW) (loc : Schema) (obs : Int) (r : Reply) : Except Strin
 /-- `tokenBucketWrapper.expectMore` -/
 def TBW.expectMore (w : TBW) : Bool := i32sub (i32sub w.reserve w.tokens) w.tokenInflight > 0
 
+/-- `tokenBucketWrapper.ExpectToken()` at time `now` (ns): how many tokens the next acquire request asks for -/
+def TBW.expectToken (w : TBW) (m : Meter) (now : Int) : Int :=
+  let expect := i32sub w.reserve w.tokens
+  let batch :=
+    if m.rateNum > w.reserve * m.rateDen then
+      let b := i32div (i32mul (toI32 (Int.tdiv m.rateNum m.rateDen)) globalTokenBucketBatchAcquiredPercent) 100
+      if b < globalTokenBucketBatchAcquireMin then globalTokenBucketBatchAcquireMin else b
+    else w.tokenBatch
+  let expect := i32sub expect w.tokenInflight
+  let expect := if expect < 0 then 0 else expect
+  if expect < w.tokenBatch then
+    (if now - w.lastAcquireTime < batchAcquireMaxDuration then 0 else expect)
+  else if expect > batch then batch else expect
+
+/-- `maxInflightWrapper.ExpectToken()` with nothing in flight and nobody waiting -/
+def MIW.expectToken (w : MIW) : Int := if (0 : Int) > w.max then w.max else 0
+
 /-- `uint32(lastQPS)` for the clamped observed rate `num/den ≥ 0` (truncation) -/
 def rateToU32 (num den : Int) : Int := toU32 (Int.tdiv num den)
 
@@ -462,11 +479,32 @@ structure Cfg where
   hasCS : Bool := true
   deriving DecidableEq, Repr, Inhabited
 
+/-- `globalCounter` of the flow control (it exists exactly while the remote wrapper holds a count wrapper): a pending
+    event (`eventCh`) and `lastSyncTime` (unix seconds) -/
+structure Counter where
+  event : Bool := false
+  lastSync : Int := 0
+  deriving DecidableEq, Repr, Inhabited
+
 /-- `flowControlCache` -/
 structure Cache where
   loc : Local := {}
   remote : Option Remote := none
+  cnt : Counter := {}
   deriving DecidableEq, Repr, Inhabited
+
+/-- does `remoteWrapper.Sync` build a new limiter (`newFlowControl`: `globalCounter.Stop(name)`, and for the count
+    strategy `globalCounter.Add(name, …)`: a new counter)? The path conditions of `remoteSync`. -/
+def remoteRecreates (r : Remote) (loc : Schema) (i : Item) : Bool :=
+  let applied := boundByGlobalLimit loc i
+  if some i = r.remoteConfig ∧ some applied = r.appliedConfig then false
+  else match r.fc with
+    | none => true
+    | some g =>
+      if g.inner.kind ≠ itemType i ∨ r.strategy ≠ i.strategy then true
+      else if i.mi.isSome ∧ g.inner.kind = .mi then false
+      else if i.tb.isSome ∧ g.inner.kind = .tb then false
+      else true
 
 structure State where
   cache : Option Cache := none
@@ -479,6 +517,17 @@ structure State where
   meter : Meter := {}
   /-- result of the last `SetLimit` (reported only) -/
   lastRet : Bool := false
+  /-- the time of the last timed operation (ns) -/
+  clock : Int := 0
+  /-- the token count of the request built by the last tick (reported only) -/
+  lastReq : Option Int := none
+  deriving DecidableEq, Repr, Inhabited
+
+/-- the limiter server's answer to the request of a tick: nothing for this flow control, or a result -/
+structure TickAnswer where
+  accept : Bool := false
+  limit : Int := 0
+  err : ErrKind := .none
   deriving DecidableEq, Repr, Inhabited
 
 inductive Op
@@ -499,6 +548,12 @@ inductive Op
   | meter (m : Meter)
   /-- an acquire result (or the time-out of `resetCheck`) reaches `remoteWrapper.SetLimit` -/
   | setLimit (r : Reply)
+  /-- a request went through the count wrapper: `globalCounter.Count` leaves an event -/
+  | event
+  /-- one round of `globalCounterManager.doAcquire` at time `now`: `acquireRequest` decides whether and what to ask
+      for; the request (if any) is answered by `ans` (`none`: no result for this flow control) through
+      `globalCounter.send` -/
+  | tick (now : Int) (ans : Option TickAnswer)
   deriving DecidableEq, Repr, Inhabited
 
 /-- `clientSets.IsReady(cluster)` -/
@@ -509,9 +564,32 @@ def isReady (st : State) : Bool :=
     | some h => h.ready
 
 /-- `EnableRemoteFlowControl` (if needed) followed by `remoteWrapper.Sync(item)` -/
-def cacheRemoteSync (c : Cache) (i : Item) : Except String Cache := do
+def cacheRemoteSync (c : Cache) (i : Item) (nowS : Int) : Except String Cache := do
   let r' ← remoteSync (c.remote.getD {}) c.loc.config i
-  pure { c with remote := some r' }
+  pure { c with remote := some r',
+                cnt := if remoteRecreates (c.remote.getD {}) c.loc.config i then { event := false, lastSync := nowS } else c.cnt }
+
+/-- unix seconds of a time in ns (`time.Now().Unix()`) -/
+def unixS (now : Int) : Int := now / 1000000000
+
+/-- what `acquireRequest` asks for this flow control at `now`: `none` = no request. `g` is the count wrapper. -/
+def requestOf (g : GFC) (cnt : Counter) (m : Meter) (now : Int) : Option Int :=
+  let due := decide (unixS now - cnt.lastSync > 2)
+  if !(cnt.event || due) then none
+  else
+    let resync := !cnt.event && due
+    match g with
+    | .empty _ => none
+    | .miw w => some w.expectToken
+    | .tbw w =>
+      let hits := w.expectToken m now
+      if hits ≤ 0 ∧ resync = false then none else some hits
+
+/-- `AddAcquiring(hits)` -/
+def GFC.addAcquiring (g : GFC) (hits : Int) : GFC :=
+  match g with
+  | .tbw w => .tbw { w with tokenInflight := i32add w.tokenInflight hits }
+  | g => g
 
 def step (st : State) : Op → Except String State
   | .schema s =>
@@ -520,26 +598,26 @@ def step (st : State) : Op → Except String State
       -- `NewFlowControlCache` + first `localWrapper.Sync`: the zero `localConfig` has another Name, never DeepEqual
       match newLim s with
       | .error e => .error e
-      | .ok fc => .ok { st with cache := some { loc := { config := s, fc := some fc }, remote := none } }
+      | .ok fc => .ok { st with cache := some { loc := { config := s, fc := some fc }, remote := none, cnt := {} } }
     | some c =>
       match localSync c.loc s with
       | .error e => .error e
-      | .ok (l, stop) => .ok { st with cache := some { loc := l, remote := if stop then none else c.remote } }
+      | .ok (l, stop) => .ok { st with cache := some { c with loc := l, remote := if stop then none else c.remote } }
   | .shards n => .ok { st with shardCount := n }
   | .sync fail n leader now =>
-    if fail then .ok st
+    if fail then .ok { st with clock := now }
     else
       match leader with
-      | none => .ok { st with shardCount := n }
+      | none => .ok { st with shardCount := n, clock := now }
       | some l =>
         -- `if oldLeader != ep.Leader { leaderEndpoints.Store(…); setLeaderStatus(shard, leader, true) }`
         if st.leader ≠ l then
-          .ok { st with shardCount := n, leader := l, hb := some (hbStep (st.hb.getD {}) true now) }
-        else .ok { st with shardCount := n }
+          .ok { st with shardCount := n, leader := l, hb := some (hbStep (st.hb.getD {}) true now), clock := now }
+        else .ok { st with shardCount := n, clock := now }
   | .hb ok now other =>
     if other then .ok st
     else
-      .ok { st with hb := some (hbStep (st.hb.getD {}) ok now) }
+      .ok { st with hb := some (hbStep (st.hb.getD {}) ok now), clock := now }
   | .reconcileCount =>
     match st.cache with
     | none => .ok st
@@ -548,7 +626,7 @@ def step (st : State) : Op → Except String State
       else if !enableGlobal c.loc.config then .ok st
       else
         let item : Item := { strategy := c.loc.config.strategy, mi := c.loc.config.gmi, tb := c.loc.config.gtb }
-        match cacheRemoteSync c item with
+        match cacheRemoteSync c item (unixS st.clock) with
         | .error e => .error e
         | .ok c' => .ok { st with cache := some c' }
   | .answer named item =>
@@ -559,7 +637,7 @@ def step (st : State) : Op → Except String State
       else if !enableGlobal c.loc.config then .ok st
       else if itemType item ≠ guessType c.loc.config then .ok st   -- flowcontrol_type_mismatch
       else
-        match cacheRemoteSync c item with
+        match cacheRemoteSync c item (unixS st.clock) with
         | .error e => .error e
         | .ok c' => .ok { st with cache := some c' }
   | .meter m => .ok { st with meter := m }
@@ -576,6 +654,45 @@ def step (st : State) : Op → Except String State
           match gfcSetLimit g c.loc.config st.meter r with
           | .error e => .error e
           | .ok (g', b) => .ok { st with cache := some { c with remote := some { rm with fc := some g' } }, lastRet := b }
+  | .event =>
+    match st.cache with
+    | none => .ok st
+    | some c =>
+      match c.remote with
+      | none => .ok st
+      | some rm =>
+        match rm.fc with
+        | some (.miw _) => .ok { st with cache := some { c with cnt := { c.cnt with event := true } } }
+        | some (.tbw _) => .ok { st with cache := some { c with cnt := { c.cnt with event := true } } }
+        | _ => .ok st
+  | .tick now ans =>
+    let st := { st with clock := now, lastReq := none }
+    match st.cache with
+    | none => .ok st
+    | some c =>
+      match c.remote with
+      | none => .ok st
+      | some rm =>
+        match rm.fc with
+        | none => .ok st
+        | some g =>
+          match requestOf g c.cnt st.meter now with
+          | none => .ok { st with cache := some { c with cnt := { c.cnt with event := false } } }
+          | some hits =>
+            let g1 := g.addAcquiring hits
+            match ans with
+            | none =>
+              .ok { st with lastReq := some hits,
+                            cache := some { c with remote := some { rm with fc := some g1 }, cnt := { c.cnt with event := false } } }
+            | some a =>
+              match gfcSetLimit g1 c.loc.config st.meter
+                  { hasReq := true, tokens := hits, accept := a.accept, limit := a.limit, err := a.err, rt := now } with
+              | .error e => .error e
+              | .ok (g', b) =>
+                -- (`send` drops SetLimit's result: it only decides whether another event is raised 200 ms later)
+                .ok { st with lastReq := some hits, lastRet := if b then st.lastRet else st.lastRet,
+                              cache := some { c with remote := some { rm with fc := some g' },
+                                                     cnt := { event := false, lastSync := unixS now } } }
 
 /-- which limiter `GetOrDefault(name)` hands to a request -/
 inductive Choice | dflt | loc | remote
@@ -621,6 +738,10 @@ structure Obs where
   ret : Bool := false
   remoteConfig : Option Item := none
   leader : Nat := 0
+  /-- the counter of the flow control: a pending event, `lastSyncTime`; the request built by the last tick -/
+  event : Bool := false
+  lastSync : Int := 0
+  req : Option Int := none
   deriving DecidableEq, Repr, Inhabited
 
 def observe (cfg : Cfg) (st : State) : Obs :=
@@ -632,15 +753,18 @@ def observe (cfg : Cfg) (st : State) : Obs :=
     | .loc => st.cache.bind (·.loc.fc)
     | .remote => rlim
   let base : Obs := { choice := ch, lim := lim, rlim := rlim, ready := isReady st, ret := st.lastRet,
-                      remoteConfig := st.cache.bind (fun c => c.remote.bind (·.remoteConfig)), leader := st.leader }
+                      remoteConfig := st.cache.bind (fun c => c.remote.bind (·.remoteConfig)), leader := st.leader,
+                      req := st.lastReq }
+  let cnt : Counter := match st.cache with | some c => c.cnt | none => {}
   match gfc with
   | none => base
   | some (.empty _) => { base with wkind := 1 }
   | some (.miw w) => { base with wkind := 2, unavail := w.unavail, wmax := w.max, wreserve := w.reserve,
-                                 lastAcq := w.lastAcquireTime, acquired := w.acquired, overLimited := w.overLimited }
+                                 lastAcq := w.lastAcquireTime, acquired := w.acquired, overLimited := w.overLimited,
+                                 event := cnt.event, lastSync := cnt.lastSync }
   | some (.tbw w) => { base with wkind := 3, unavail := w.unavail, wreserve := w.reserve, lastAcq := w.lastAcquireTime,
                                  tokens := w.tokens, tokenBatch := w.tokenBatch, tokenInflight := w.tokenInflight,
-                                 wqps := w.qps, wburst := w.burst }
+                                 wqps := w.qps, wburst := w.burst, event := cnt.event, lastSync := cnt.lastSync }
 
 /-- run an operation list from the freshly constructed `upstreamLimiter`: the observation after every operation,
     and the panic message if one of them panicked (the run stops there, as the process would) -/
